@@ -3,10 +3,11 @@ import Pog.Model.Tracker
 import Pog.Model.Parser
 import Pog.Model.ParserSpec
 import Pog.Lemmas.Simple2Dec
+import Pog.Lemmas.Simple3Dec
 open Lean Pog Pog.Drv
 namespace Pog.Drv
 
-def parserFns : List String := ["trackerRun", "parseSpec", "parserInFragment2"]
+def parserFns : List String := ["trackerRun", "parseSpec", "parserInFragment2", "parserInFragment3"]
 
 private def getOptStr (j : Json) : Except String (Option Str) :=
   if j.isNull then pure none else do pure (some (← getStr j))
@@ -198,6 +199,17 @@ def parserRun (f : String) (a : Array Json) : Except String Json := do
       let p ← kv.getArr?
       pure ((← getStr (← argN p 0)), (← getNat (← argN p 1)))) (← argN a 3)
     pure (Json.bool (Prs.inFragment2 md fuel decls rs))
+  | "parserInFragment3" =>
+    -- same arguments: the hypotheses of C02c.parse_faithful_partial3 (C02c.inFragment3_sound)
+    let md ← getNat (← argN a 0)
+    let fuel ← getNat (← argN a 1)
+    let decls ← getList (fun kv => do
+      let p ← kv.getArr?
+      pure ((← getStr (← argN p 0)), (← getNode (← argN p 1)))) (← argN a 2)
+    let rs ← getList (fun kv => do
+      let p ← kv.getArr?
+      pure ((← getStr (← argN p 0)), (← getNat (← argN p 1)))) (← argN a 3)
+    pure (Json.bool (Prs.inFragment3 md fuel decls rs))
   | _ => throw s!"unknown function {f}"
 
 def dispatchParser : Dispatch := fun f a _ =>
